@@ -2,7 +2,7 @@
 import os, subprocess, re
 import kdf
 
-THEOREMS = ["Kdf.Props.C06." + t for t in ("inv_flush", "inv_step_partial", "inv_step_weak", "inv_iff_weak", "inv_step_counterexample", "no_ub", "no_ub_weak", "inv_reachable_partial", "inv_reachable_weak", "inv_reachable_counterexample", "busy_iff", "busy_unchanged", "referenced_stable", "cached_stable", "hit_key", "miss_entry", "buffer_addresses_distinct")]
+THEOREMS = ["Kdf.Props.C06." + t for t in ("inv_flush", "inv_step_partial", "inv_step_weak", "inv_iff_weak", "inv_step_counterexample", "no_ub", "no_ub_weak", "inv_reachable_partial", "inv_reachable_weak", "inv_reachable_counterexample", "busy_iff", "busy_unchanged", "referenced_stable", "cached_stable", "hit_key", "miss_entry", "buffer_addresses_distinct", "life_release_inv", "life_drop_inv", "life_history")]
 
 
 class Impl:
@@ -105,7 +105,7 @@ def invariant(st, cap, holders, content):
     return None
 
 
-def explore(R, exe, cap, nkeys, nops, maxhold, script=None):
+def explore(R, exe, cap, nkeys, nops, maxhold, script=None, release=None):
     """Run one random (or scripted) protocol-respecting history on the implementation.
     Returns (ops, impl_lines, failure message or None)."""
     I = Impl(exe)
@@ -191,6 +191,32 @@ def explore(R, exe, cap, nkeys, nops, maxhold, script=None):
         if msg:
             fail = msg
             break
+    # life cycle: the cache is replaced (cache_release) while `holders` still have pages; it must live exactly until the
+    # last of them is put or discarded, whichever half of the entry array they are in
+    if fail is None and script is None and (release if release is not None else rng.random() < 0.5):
+        def life(out):
+            m = re.match(r"(released|orphan) freed=(\d) refs=(\S*)$", out)
+            if not m:
+                return "unexpected answer in the life cycle of a released cache: %s" % out[:200]
+            refs = {int(a): int(b) for a, b in (t.split(":") for t in m.group(3).split(",") if t)}
+            cnt = {}
+            for h in holders:
+                cnt[h["idx"]] = cnt.get(h["idx"], 0) + 1
+            if refs != cnt:
+                return "released cache: reference counts %s, callers hold %s" % (refs, cnt)
+            if m.group(2) == "1" and holders:
+                return "released cache was freed while entries %s are still referenced by callers" % sorted(cnt)
+            if m.group(2) == "0" and not holders:
+                return "released cache is not freed although no entry is referenced any more"
+            return None
+        out, fail = do("release")
+        if fail is None:
+            fail = life(out)
+        while fail is None and holders:
+            h = holders.pop(rng.randrange(len(holders)))
+            out, fail = do("%s %d" % ("discard" if h["fill"] or rng.random() < 0.3 else "put", h["idx"]))
+            if fail is None:
+                fail = life(out)
     I.close()
     return ops, lines, fail
 
